@@ -1,7 +1,10 @@
 package checks
 
 import (
+	"bytes"
 	"fmt"
+	"os"
+	"path/filepath"
 	"syscall"
 	"time"
 
@@ -63,7 +66,21 @@ func mountRead(c *core.Case, n *drv.Node, name string, owner uint64) (res readRe
 		return res, nil
 	}
 	_ = f.Unlock(owner, pager.PendingByte, pager.PendingByte)
-	if shm, err := n.Open(name + "-shm"); err == nil {
+	shm, err := n.Open(name + "-shm")
+	if err != nil && drv.Errno(err) == syscall.ENOENT {
+		// A WAL-mode database whose shared-memory file is gone (the last
+		// connection was closed properly): SQLite learns the mode from page 1,
+		// creates the file and takes its WAL locks like any WAL reader.
+		hdr := make([]byte, 100)
+		if k, rerr := n.Cache.Read(f, owner, hdr, 0); rerr == nil && k >= 20 && hdr[18] == 2 && hdr[19] == 2 {
+			if shm, err = n.Create(name + "-shm"); err == nil {
+				_ = shm.WriteAt(owner, make([]byte, 32768), 0)
+			} else {
+				shm, err = n.Open(name + "-shm")
+			}
+		}
+	}
+	if err == nil {
 		defer shm.Close(owner)
 		if err := lockRetry(shm, owner, pager.WalDMS, pager.WalDMS, false, 2000); err != nil {
 			res.Skipped = "DMS busy"
@@ -100,8 +117,17 @@ func mountRead(c *core.Case, n *drv.Node, name string, owner uint64) (res readRe
 		c.Violate(c.Prop+"/pos-changed-under-read-locks", fmt.Sprintf("%s on %s: position changed %s -> %s while a reader held SHARED(+DMS,READ0)", name, n.Cfg.Dir, p1, p2), nil)
 	}
 	res.Pos = p2
+	if os.Getenv("VERIF_DEBUG_READ") != "" {
+		raw, _ := os.ReadFile(filepath.Join(mon.DBDir(n, name), "database"))
+		_, rn, _, _ := ref.HeaderInfo(raw)
+		_, cn, _, _ := ref.HeaderInfo(dbb)
+		fmt.Fprintf(os.Stderr, "DEBUG mountRead %s %s pos=%s rawlen=%d rawhdrN=%d cachelen=%d cachehdrN=%d equal=%v mode=%s\n", n.Cfg.Dir, name, p2, len(raw), rn, len(dbb), cn, bytes.Equal(raw, dbb), n.Store.DB(name).Mode())
+	}
 	res.Img = ref.LogicalImage(dbb, wal)
 	res.DBLen, res.WALLen = len(dbb), len(wal)
+	if os.Getenv("VERIF_DEBUG_READ") != "" {
+		fmt.Fprintf(os.Stderr, "DEBUG   -> img pages=%d pagesize=%d wal=%d p0=%s p1=%s\n", res.Img.PageN, res.Img.PageSize, len(wal), p0, p1)
+	}
 	return res, nil
 }
 
